@@ -134,6 +134,18 @@ func H_c17(p []int) {
 			w.SafeString("]")
 		})
 	}
+	if len(p) > 6 && p[6] > 0 {
+		// an earlier, unrelated call with the same hook installed
+		switch p[6] {
+		case 1:
+			_ = redact.Sprint(redact.Safe(wrapErrV{"pre", cntErr{"x"}}))
+		case 2:
+			_ = redact.Sprintf("%v", redact.Unsafe(cntErr{"x"}))
+		case 3:
+			_ = redact.Sprintf("%8.3v", cntErr{"x"})
+		}
+		errCalls, nilErrCalls, hookCalls = 0, 0, 0
+	}
 	var arg interface{}
 	switch pos {
 	case 0, 1:
